@@ -6,7 +6,7 @@ import corr, gen_sig
 
 # profile mix, non-triviality rule per property
 CFG = {
-    "C01": dict(profiles=[("basic", 5), ("accum", 2), ("chain", 1)],
+    "C01": dict(profiles=[("basic", 5), ("accum", 2), ("chain", 1), ("reentrant", 2)],
                 rule="history with >= 2 slot invocations in the model trace and at least one connect_first / block / disconnect / clear before an emission",
                 nontrivial=lambda p, t: t.count(" L") + t.startswith("L") >= 2 and bool(re.search(r"gconn \d+ \d+ -?\d+ 1 |block \d+ 1|cdisc|gclear", p))),
     "C02": dict(profiles=[("lifetime", 5), ("reentrant", 3), ("slots", 1)],
@@ -27,7 +27,7 @@ CFG = {
     "C08": dict(profiles=[("throwing", 8)],
                 rule="an exception leaves at least one slot body (T event) and at least one operation follows it",
                 nontrivial=lambda p, t: bool(re.search(r"T\d+ .*(E\d|gq|cq)", t))),
-    "C12": dict(profiles=[("basic", 6), ("scoped", 1), ("slots", 2)],
+    "C12": dict(profiles=[("basic", 6), ("scoped", 1), ("slots", 2), ("reentrant", 3)],
                 rule="a block/unblock through slot, connection or signal followed by an emission, direct call or blocked() query",
                 nontrivial=lambda p, t: bool(re.search(r"block \d+ 1", p)) and bool(re.search(r"gemit|scall|gq|cq", p))),
     "C13": dict(profiles=[("accum", 6), ("basic", 2)],
